@@ -296,7 +296,8 @@ def generate(tier):
     from .common import underscorify, rawify
     named = [x for x in cases if ':n' in x.key or '|n' in x.key]
     for c in named[::5]:
-        for tr in (underscorify, rawify):
+        from .common import localsify
+        for tr in (underscorify, rawify, lambda c_: localsify(c_, 0), lambda c_: localsify(c_, 1)):
             r_ = tr(c)
             if r_:
                 cases.append(r_)
